@@ -353,6 +353,15 @@ func (r *rec) source1(corpus []string, rawEp bool) string {
 	if r.rng.Intn(14) == 0 {
 		return gen.CornerTrade(r.rng)
 	}
+	if r.rng.Intn(12) == 0 {
+		// the material classes with special evaluation rules, also at the fifty-move boundary
+		fen := gen.SparseEndgame(r.rng)
+		if f := strings.Fields(fen); len(f) == 6 && r.rng.Intn(3) == 0 {
+			f[4] = []string{"100", "99", "100"}[r.rng.Intn(3)]
+			fen = strings.Join(f, " ")
+		}
+		return fen
+	}
 	pr := profiles[r.rng.Intn(len(profiles))]
 	pr.RawEp = rawEp
 	return gen.RandomValid(r.rng, pr)
